@@ -39,15 +39,15 @@ func c07Frame(c *sim.Ctx) (frame []byte, fm []ref.Field, valid bool) {
 	if t.Bool(1, 500) || c.Run == c07ShortRuns || giant {
 		// a multi-megabyte PUBLISH (4-byte remaining length), on purpose
 		n := 2097152 + t.Int(1<<20)
-		if t.Bool(1, 2) {
-			n = 4<<20 + t.Int(1<<20)
+		if t.Bool(1, 2) || c.Run == c07ShortRuns {
+			n = 4<<20 + 1 + t.Int(1<<20) // more than 4 Mi bytes: as many Read calls when they come singly
 		}
 		if giant {
 			n = 16<<20 + t.Int(2<<20) // 16..18 MiB
 		}
 		g := gen.NewG(t, c.Thorough, 0)
 		a = &ref.AP{Type: ref.Publish, Flags: byte(t.Int(3)) << 1, Topic: []byte("big/one"), PacketID: 9, Payload: g.Bin(n)}
-		if !giant && t.Bool(1, 3) {
+		if !giant && c.Run != c07ShortRuns && t.Bool(1, 3) {
 			// the reserved type 0 with a body of 256 KiB .. 3 MiB (decoded as Undefined)
 			a = &ref.AP{Type: ref.Reserved0, Flags: byte(t.Int(16)), Raw: g.Bin(262144 + 1 + t.Int(3<<20))}
 		}
@@ -478,7 +478,7 @@ func runC07(c *sim.Ctx) *sim.Violation {
 		c.Count("sweep.all-compositions-of-the-fixed-header+1")
 	}
 	// (2) one byte at a time
-	if L <= 4096 || t.Bool(1, 8) {
+	if L <= 4096 || t.Bool(1, 8) || c.Run == c07ShortRuns {
 		e := ending(t.Int(3))
 		segs := make([]int, L)
 		for i := range segs {
